@@ -251,6 +251,54 @@ def check(case):
   return r, s
 
 
+
+# ------------------------------------------------------------------ timeout_ms=0: "do not wait"
+def check_zero_timeout(case):
+  """case = {'zero': 'read'|'write'|'open'}: a call given timeout_ms=0 on a device that has nothing to say returns or raises
+  at once (virtual time does not advance), and the connection goes on working."""
+  r = CaseResult()
+  vmode.setup(usb=True)
+  vmode.quiet_logging()
+
+  def fn(s):
+    m = fk.load()
+    ap = m.adb_protocol
+    ap.STREAM_ID_LIMIT = 2 ** 16
+    script = [{'open': 'OKAY', 'wrtes': [], 'close': False, 'ack_host_writes': case['zero'] != 'write'},
+              {'open': 'SILENT' if case['zero'] == 'open' else 'OKAY', 'wrtes': ['later'], 'close': False}]
+    dev = fk.ScriptedAdbDevice(script, maxdata=16, cond_factory=lambda: V.VCondition(sched=s), max_block_s=None)
+    conn = ap.AdbConnection.connect(dev, timeout_ms=5000)
+    s0 = conn.open_stream('svc0:', timeout_ms=5000)
+    t0 = s.now
+    try:
+      if case['zero'] == 'read':
+        got = ('returned', s0.read(timeout_ms=0))
+      elif case['zero'] == 'write':
+        got = ('returned', s0.write('abc', timeout_ms=0))
+      else:
+        got = ('returned', conn.open_stream('svc1:', timeout_ms=0) is not None)
+    except Exception as e:  # pylint: disable=broad-except
+      got = ('raised', type(e).__name__)
+    return {'got': got, 'took': s.now - t0}
+
+  s = V.Scheduler(plan={}, time_limit=600.0, max_steps=100000)
+  res, exc = s.run(lambda: fn(s), watchdog_s=20.0)
+  r.nontrivial = True
+  r.classes = ['zero-timeout', 'call:' + case['zero']]
+  if s.failure is not None:
+    if s.failure[0] in ('deadlock', 'steplimit'):
+      r.bad('C14/no-progress/zero-timeout-call-blocks', '%s(timeout_ms=0) never came back: %s' % (case['zero'], s.failure[1][:400]))
+      return r, s
+    raise RuntimeError('scheduler failure: %r' % (s.failure,))
+  if exc is not None:
+    raise exc
+  if res['took'] > 0.2:
+    r.bad('C14/timeout-exceeded', '%s(timeout_ms=0) took %.2f s (%r)' % (case['zero'], res['took'], res['got']))
+  if res['got'][0] == 'raised' and res['got'][1] not in ('AdbTimeoutError', 'UsbReadFailedError', 'UsbWriteFailedError'):
+    r.bad('C14/zero-timeout/wrong-error/%s' % res['got'][1], '%s(timeout_ms=0): %r' % (case['zero'], res['got']))
+  return r, s
+
+
 @st.composite
 def cases(draw, small=False):
   n = 1 if small else draw(st.integers(1, 3))
@@ -329,7 +377,7 @@ SLOW_ACK_CASES = [
 LATE_PAYLOAD_CASES = [
     {'streams': [{'wrtes': ['abcd', 'efgh'], 'close': False, 'read_len': 0, 'read_timeout_ms': 500, 'write_len': 0, 'write_timeout_ms': None, 'payload_delay_s': d}] + (
         [{'wrtes': ['xy'], 'close': False, 'read_len': 0, 'read_timeout_ms': None, 'write_len': 0, 'write_timeout_ms': None}] if two else []),
-     'merge': [0, 1, 0] if two else [0, 0], 'maxdata': 16, 'retry_timeouts': True} for d in (0.2, 0.8, 1.2) for two in (False, True)]
+     'merge': [0, 1, 0] if two else [0, 0], 'maxdata': 16, 'retry_timeouts': True, 'msglog': ml} for d in (0.2, 0.8, 1.2) for two in (False, True) for ml in (False, True)]
 
 
 STALL_CASES = [
@@ -394,6 +442,12 @@ def run_job(job, acct):
     # a request/response service (the device speaks only once it has been written to), plain and with the message log on:
     # the writer is descheduled for 50 ms at every line of its write path, so the reader is already parked in the
     # transport read when the write arrives - the pipe is full duplex, the write goes through and the answer wakes the reader
+    for z in ('read', 'write', 'open'):
+      case = {'zero': z}
+      rz, _ = check_zero_timeout(case)
+      acct.case(case, True, rz.classes)
+      for sig, detail in rz.violations:
+        (acct.known if sig in known else acct.violation)(sig, case, detail)
     for base in LATE_PAYLOAD_CASES:
       r0, _ = check(base)
       acct.case(base, True, r0.classes + ['late-payload'])
@@ -441,6 +495,8 @@ def run_job(job, acct):
 
 def replay(case):
   setup_lines()
+  if case.get('zero'):
+    return check_zero_timeout(case)[0].violations
   if case.get('unacked'):
     return check_unacked(case)[0].violations
   return check(case)[0].violations
